@@ -8,19 +8,19 @@ Local Open Scope list_scope.
 (* c_status: 0 ok, 1 error, 2 panic/crash; c_out: emitted selector text (None = nothing emitted) *)
 Record case := mkCase { c_levels : list sels; c_status : N; c_out : option text }.
 
-Inductive mres := MOut (t : option text) | MPanic | MUnmodelled.
+Inductive mres := MOut (t : option text) | MErr | MUnmodelled.
 
 Definition model (levels : list sels) : mres :=
   match nest_levels [sel0] levels with
   | Ok s => MOut (model_out s)
-  | Panic => MPanic
+  | Fail => MErr
   | Unmodelled => MUnmodelled
   end.
 
 Definition corr (c : case) : Z :=
   match model (c_levels c) with
   | MUnmodelled => 2%Z
-  | MPanic => if N.eqb (c_status c) 2 then 1%Z else 0%Z
+  | MErr => if N.eqb (c_status c) 1 then 1%Z else 0%Z
   | MOut t => if N.eqb (c_status c) 0 && otext_eqb t (c_out c) then 1%Z else 0%Z
   end.
 
